@@ -89,11 +89,14 @@ func genBody(r *vh.Rand, text bool) []byte {
 var uriPool = []string{"/", "/a", "/a/b/c", "/a?x=1&y=2", "/p%20q", "/a%2Fb?z=%26", "/buy/?rt=0&station_to=7", "/~u/index.html", "/a;p=1", "/%D0%B6", "/a/../b", "/a//b", "/?"}
 var methodPool = []string{"GET", "POST", "PUT", "DELETE", "PATCH", "HEAD", "OPTIONS", "FOO", "get"}
 
-func genCase(r *vh.Rand) string {
+func genCase(r *vh.Rand, paused bool) string {
 	format := r.Pick([]string{"uri", "uripost", "jsonline", "raw"})
 	ssl := r.Chance(1, 3)
 	ka := r.Chance(2, 3)
 	inst := r.Range(1, 4)
+	if paused { // an instance idling between its requests must still keep its one connection
+		ka, inst = true, r.Range(1, 2)
+	}
 	tgt := "ip"
 	if r.Chance(1, 3) {
 		tgt = "name"
@@ -101,6 +104,9 @@ func genCase(r *vh.Rand) string {
 	// keys the entries / file are going to use, so that the configured list can collide with them
 	var used []string
 	nItems := r.Range(1, 6)
+	if paused {
+		nItems = r.Range(2, 3)
+	}
 	var items []string
 	nEntries := 0
 	fileHdr := format == "uri" || format == "uripost"
@@ -127,6 +133,9 @@ func genCase(r *vh.Rand) string {
 		scheme, host := "-", ""
 		if r.Chance(1, 4) {
 			host = r.Pick(hostPool)
+			if paused && host == decoyToken {
+				host = "example.org" // the shared decoy server belongs to the sequential cases
+			}
 			scheme = "h"
 			if format != "jsonline" && r.Chance(1, 3) {
 				scheme = "s"
@@ -178,7 +187,11 @@ func genCase(r *vh.Rand) string {
 	resp := fmt.Sprintf("%d:%d", r.PickInt([]int{200, 200, 200, 204, 301, 404, 500}), r.PickInt([]int{0, 2, 2, 1000, 70000, 300000, 1200000}))
 	pools := r.PickInt([]int{1, 1, 1, 2, 3})
 	late := r.Chance(1, 3)
-	line := fmt.Sprintf("wire %s %s %s %d %s %s %s %d %s %d", format, vh.B(ssl), vh.B(ka), inst, tgt, vh.B(r.Chance(1, 3)), resp, pools, vh.B(late), len(cfg))
+	pause := 0
+	if paused {
+		pause = r.PickInt([]int{1300, 1300, 1600})
+	}
+	line := fmt.Sprintf("wire %s %s %s %d %s %s %s %d %s %d %d", format, vh.B(ssl), vh.B(ka), inst, tgt, vh.B(r.Chance(1, 3)), resp, pools, vh.B(late), pause, len(cfg))
 	if len(cfg) > 0 {
 		line += " " + strings.Join(cfg, " ")
 	}
@@ -193,7 +206,12 @@ func gen(r *vh.Rand, tier string) []string {
 	}
 	out := make([]string, 0, n)
 	for i := 0; i < n; i++ {
-		out = append(out, genCase(r))
+		out = append(out, genCase(r, i%100 == 50)) // 1% of the cases pause between the requests
+	}
+	// transport construction: every TransportConfig field must land in the same-named field of the http.Transport
+	for i := 0; i < n/20+3; i++ {
+		out = append(out, fmt.Sprintf("tr %d %s %s %d %d %d %d %d", r.PickInt([]int{0, 1000, 1500, 700}), vh.B(r.Bool()), vh.B(r.Bool()), r.Intn(5), r.Intn(7),
+			r.PickInt([]int{0, 90000, 1000, 12345}), r.PickInt([]int{0, 500, 2222}), r.PickInt([]int{0, 1000, 90000, 777})))
 	}
 	return out
 }
